@@ -27,6 +27,7 @@ type FuncResult struct {
 	Err       string // out-of-subset / bind error
 	WrapRerun bool
 	GenSecs   float64
+	SplitCallee, SplitVal string
 }
 
 var overlayFiles = map[string]string{}
@@ -129,8 +130,26 @@ func shortName(c *Contract) string {
 	return p + "." + c.Fn
 }
 
-func genFunc(cs *ContractSet, l *Loaded, c *Contract, wrap bool) (fr *FuncResult) {
-	fr = &FuncResult{Key: c.Key(), Short: shortName(c), Contract: c}
+// genFuncAll expands `split CALLEE : v1 v2 ...` clauses: the function is verified once per value
+// with the callee's result replaced by the literal (plus one coverage obligation).
+func genFuncAll(cs *ContractSet, l *Loaded, c *Contract, wrap bool) []*FuncResult {
+	if len(c.Split) == 0 {
+		return []*FuncResult{genFunc(cs, l, c, wrap, "", "")}
+	}
+	parts := strings.SplitN(c.Split[0], ":", 2)
+	callee := strings.TrimSpace(parts[0])
+	var out []*FuncResult
+	for _, v := range strings.Fields(parts[1]) {
+		out = append(out, genFunc(cs, l, c, wrap, callee, v))
+	}
+	return out
+}
+
+func genFunc(cs *ContractSet, l *Loaded, c *Contract, wrap bool, splitCallee, splitVal string) (fr *FuncResult) {
+	fr = &FuncResult{Key: c.Key(), Short: shortName(c), Contract: c, SplitCallee: splitCallee, SplitVal: splitVal}
+	if splitCallee != "" {
+		fr.Short += "{" + splitCallee + "=" + splitVal + "}"
+	}
 	fn := findFunc(l, c)
 	if fn == nil {
 		fr.Err = "bind: no function " + c.Key() + " in the current tree"
@@ -142,6 +161,7 @@ func genFunc(cs *ContractSet, l *Loaded, c *Contract, wrap bool) (fr *FuncResult
 	}
 	g := newGen(cs, fn, c, wrap)
 	g.short = fr.Short
+	g.splitCallee, g.splitVal = splitCallee, splitVal
 	fr.Gen = g
 	t0 := time.Now()
 	func() {
@@ -308,7 +328,7 @@ func cmdCheck(args []string) int {
 	defer os.RemoveAll(tmpdir)
 	var frs []*FuncResult
 	for _, c := range sel {
-		frs = append(frs, genFunc(cs, l, c, false))
+		frs = append(frs, genFuncAll(cs, l, c, false)...)
 	}
 	solveAll(frs, timeoutS, *tier == "thorough", tmpdir)
 	// side conditions (no-overflow, sign of division) that fail are not violations: the function is
@@ -321,7 +341,7 @@ func cmdCheck(args []string) int {
 			}
 		}
 		if sideFail && fr.Err == "" {
-			nfr := genFunc(cs, l, fr.Contract, true)
+			nfr := genFunc(cs, l, fr.Contract, true, fr.SplitCallee, fr.SplitVal)
 			nfr.WrapRerun = true
 			solveAll([]*FuncResult{nfr}, timeoutS, false, tmpdir)
 			frs[i] = nfr
